@@ -18,6 +18,6 @@ export CARGO_NET_OFFLINE=true VERIF_DIR=$M
 for k in "$@"; do
   out=$(cd $M/harness && ./target/release/dexcheck $k quick 2>&1); code=$?
   first=$(echo "$out" | grep -m1 -E 'message=|corpus case' | cut -c1-300)
-  echo "[$(basename $(dirname $(dirname $p)))/$(basename $(dirname $p))] $k exit=$code $first"
+  echo "[$(echo $p | awk -F/ '{print $(NF-3)"/"$(NF-2)"/"$(NF-1)}')] $k exit=$code $first"
 done
 git -C $M/repo checkout -q -- .
